@@ -7,14 +7,14 @@ CONSTANTS
   Limit = 3
   Window = 4
   MaxRound = 3
-  MaxSnaps = 8
+  MaxSnaps = 7
   MaxEarly = 1
   Late = {}
   MaxPub = 1
-  MaxAhead = 1
+  MaxAhead = 0
   Interleave = FALSE
   Faults = FALSE
-  RefChoice = FALSE
+  RefChoice = TRUE
   RemoteAnytime = FALSE
   Eager = TRUE
   Track = FALSE
